@@ -187,7 +187,39 @@ def install(nprocs):
     og, of = ps.DiffEqSolver.getModes, ps.DiffEqSolver.findPotential
     ps.DiffEqSolver.getModes = staticmethod(lambda rho: (_stmt("getModes", gname(rho)), og(rho))[1])
     ps.DiffEqSolver.findPotential = staticmethod(lambda phi: (_stmt("findPotential", gname(phi)), of(phi))[1])
-    wrap(ps.QuasiNeutralitySolver, "solveEquation", lambda o: lambda self, p, r: (_stmt("solve", gname(p), gname(r)), o(self, p, r))[1])
+    orig_init = ps.QuasiNeutralitySolver.__init__
+
+    def qn_init(o):
+        def f(self, *a, **k):
+            self._verif_args = (a, k)
+            return o(self, *a, **k)
+        return f
+    wrap(ps.QuasiNeutralitySolver, "__init__", qn_init)
+
+    def qn_solve(o):
+        def f(self, p, r):
+            _stmt("solve", gname(p), gname(r))
+            ref = os.environ.get("VERIF_QNREF") and "qn_quadrature_dev" not in REC and _rank() == 0 and hasattr(self, "_verif_args")
+            if ref:
+                rho0 = np.array(r.getAllData()).copy()
+            out = o(self, p, r)
+            if ref:
+                # the same modes solved by a second solver object that differs only in a much finer quadrature: the driver's potential
+                # is the mode-by-mode solution of the stated equation up to quadrature error
+                got = np.array(p.getAllData()).copy()
+                a, k = self._verif_args
+                a = list(a)
+                a[1] = 16
+                fine = ps.QuasiNeutralitySolver.__new__(ps.QuasiNeutralitySolver)
+                orig_init(fine, *a, **k)
+                r.getAllData()[:] = rho0
+                o(fine, p, r)
+                want = np.array(p.getAllData()).copy()
+                REC["qn_quadrature_dev"] = [float(np.max(np.abs(got - want))), float(np.max(np.abs(want)))]
+                p.getAllData()[:] = got
+            return out
+        return f
+    wrap(ps.QuasiNeutralitySolver, "solveEquation", qn_solve)
 
 
 def main():
@@ -207,7 +239,7 @@ def main():
     same = all(stm.get(r) == stm.get(0) for r in range(n))
     json.dump({"ok": bool(res.ok), "fault": fault, "stmts": stm.get(0, []), "stmts_same_on_all_ranks": same,
                "slices": [dict(s, rank=r) for r in sorted(REC["slices"]) for s in REC["slices"][r]],
-               "density_splines": REC.get("density_splines", [])}, sys.stdout)
+               "density_splines": REC.get("density_splines", []), "qn_quadrature_dev": REC.get("qn_quadrature_dev")}, sys.stdout)
 
 
 if __name__ == "__main__":
